@@ -359,6 +359,7 @@ def doc_tables(tr, lean_dir=None):
     """markdown: assumption table, translated functions (source line, sites, links), theorems per function"""
     summ, _ = summaries(lean_dir=lean_dir)
     text = "\n".join(open(f).read() for f in props_files())
+    only_lists, can_lists = parse_specs()
     L = []
     L.append("### Primitive call sites and what they are assumed to raise\n")
     L.append("| site (function / expression) | assumed to raise (classes and their subclasses) |")
@@ -377,8 +378,10 @@ def doc_tables(tr, lean_dir=None):
             continue
         sites = sorted({("f " if k == "fn" else "p " if k == "prim" else "? ") + n.replace("fn:", "") for _, k, n in ft.used_sites})
         ident = translate_exc.lean_ident("fn:" + spec["id"])
+        lists = [l for l, rows in list(only_lists.items()) + list(can_lists.items()) if any(r[0] == ident for r in rows)]
         thms = sorted({m.group(1) for m in re.finditer(r"theorem (\w+)\b(.*?):=", text, re.S)
-                       if re.search(r"\bSite\.%s\b" % re.escape(ident), m.group(2))})
+                       if re.search(r"\bSite\.%s\b" % re.escape(ident), m.group(2)) or
+                       any(re.search(r"∈ %s(Fns)?\b" % re.escape(l), m.group(2)) for l in lists)})
         when = "; cut: " + ", ".join("`%s` is %s" % kv for kv in spec.get("when", {}).items()) if spec.get("when") else ""
         L.append("| `%s` | `%s.%s`%s | %s:%d | %s | %s | %s | %s |" % (
             spec["id"], spec["module"], spec["qual"], when, os.path.relpath(spec["_mod"].path, tr.root), spec["_fn"].lineno,
